@@ -147,7 +147,8 @@ PROPS = {
         ],
     },
     "C02": {
-        "level": "other",
+        "level": "proof",
+        "level_prefix": "Partial proof -- contracts discharged without bound on the mechanisms named below, not the whole statement (bounded stand-ins and what is left out are listed): ",
         "units": ["compressors", "msgbuilder"],
         "kani": [
             {"group": "g0", "name": "c02_header_counts_inc_total", "kind": "complete", "tier": "quick",
@@ -188,7 +189,8 @@ PROPS = {
         ],
     },
     "C04": {
-        "level": "other",
+        "level": "proof",
+        "level_prefix": "Partial proof -- contracts discharged without bound on the mechanisms named below, not the whole statement (bounded stand-ins and what is left out are listed): ",
         "units": ["nameorder", "nsec3order"],
         "kani": [
             {"group": "g0", "name": "c04_label_order_eq_hash_len8_bounded", "kind": "bounded", "tier": "quick", "timeout": 300,
@@ -283,7 +285,8 @@ PROPS = {
         ],
     },
     "C10": {
-        "level": "other",
+        "level": "proof",
+        "level_prefix": "Partial proof -- contracts discharged without bound on the mechanisms named below, not the whole statement (bounded stand-ins and what is left out are listed): ",
         "units": ["xfr"],
         "kani": [],
         "replays": [
@@ -305,7 +308,8 @@ PROPS = {
         ],
     },
     "C11": {
-        "level": "other",
+        "level": "proof",
+        "level_prefix": "Partial proof -- contracts discharged without bound on the mechanisms named below, not the whole statement (bounded stand-ins and what is left out are listed): ",
         "units": ["tsig"],
         "kani": [],
         "replays": [
@@ -335,7 +339,8 @@ PROPS = {
         ],
     },
     "C15": {
-        "level": "other",
+        "level": "proof",
+        "level_prefix": "Partial proof -- contracts discharged without bound on the mechanisms named below, not the whole statement (bounded stand-ins and what is left out are listed): ",
         "units": ["queries"],
         "kani": [
             {"group": "repo_client", "name": "c15_queries_match_model_bounded", "kind": "bounded", "tier": "quick", "timeout": 600,
@@ -390,7 +395,8 @@ PROPS = {
                        "accumulator bound for 65535-octet keys is not proved, only checked up to 48 octets.",
     },
     "C06": {
-        "level": "other",
+        "level": "proof",
+        "level_prefix": "Partial proof -- contracts discharged without bound on the mechanisms named below, not the whole statement (bounded stand-ins and what is left out are listed): ",
         "units": ["symbols"],
         "kani": [
             {"group": "g0", "name": "c06_from_slice_index_window_bounded", "kind": "bounded", "tier": "quick",
@@ -443,7 +449,8 @@ PROPS = {
         ],
     },
     "C09": {
-        "level": "other",
+        "level": "proof",
+        "level_prefix": "Partial proof -- contracts discharged without bound on the mechanisms named below, not the whole statement (bounded stand-ins and what is left out are listed): ",
         "units": ["versioned"],
         "kani": [
             {"group": "repo_zonetree", "name": "c09_versioned_get_matches_spec_bounded", "kind": "bounded", "tier": "quick",
@@ -463,7 +470,8 @@ PROPS = {
                        "parking_lot/arc-swap/Arc; this claim is about one Versioned<T> cell only.",
     },
     "C07": {
-        "level": "other",
+        "level": "proof",
+        "level_prefix": "Partial proof -- contracts discharged without bound on the mechanisms named below, not the whole statement (bounded stand-ins and what is left out are listed): ",
         "units": ["zfsource"],
         "kani": [
             {"group": "g0", "name": "c06_from_slice_index_window_bounded", "kind": "bounded", "tier": "quick",
@@ -501,7 +509,8 @@ PROPS = {
         ],
     },
     "C05": {
-        "level": "other",
+        "level": "proof",
+        "level_prefix": "Partial proof -- contracts discharged without bound on the mechanisms named below, not the whole statement (bounded stand-ins and what is left out are listed): ",
         "units": ["rtypebitmap", "tsig", "rdcompose"],
         "kani": [
             {"group": "g0", "name": "c05_a_roundtrip", "kind": "complete", "tier": "quick",
